@@ -21,7 +21,9 @@ from ..core import Collector, FaultPlan, HarnessError, Log, Sentinel, Violation,
 from ..gen import DEC_FACTORS, RefTable, gen_general, mono_mul, mono_str, render_all, vec_key
 from ..questions import FORMAT_SPECS, ask
 
-NUMTYPES = {"float": float, "Fraction": Fraction}
+from decimal import Decimal
+
+NUMTYPES = {"float": float, "Fraction": Fraction, "Decimal": Decimal}
 
 DEFAULT_UNITS = ["meter", "m", "km", "kilometer", "inch", "foot", "mile", "second", "s", "ms", "hour", "gram", "kg",
                  "kilogram", "pound", "newton", "N", "joule", "J", "eV", "watt", "hertz", "Hz", "kelvin", "degC",
@@ -41,7 +43,7 @@ def gen_client(rng, kind):
         return {"kind": "default", "numtype": rng.choice(["float", "float", "Fraction"]),
                 "case_sensitive": rng.random() < 0.8}
     spec = gen_general(rng)
-    return {"kind": "gen", "spec": spec, "numtype": rng.choice(["float", "Fraction", "Fraction"]),
+    return {"kind": "gen", "spec": spec, "numtype": rng.choice(["float", "Fraction", "Fraction", "Decimal"]),
             "case_sensitive": rng.random() < 0.8}
 
 
@@ -518,9 +520,7 @@ class _Run:
 
     def num(self, ci):
         T = NUMTYPES[self.case["clients"][ci]["numtype"]]
-        if T is float:
-            return lambda s: int(s) if str(s).lstrip("-").isdigit() else float(s)
-        return lambda s: int(s) if str(s).lstrip("-").isdigit() else Fraction(str(s))
+        return lambda s: int(s) if str(s).lstrip("-").isdigit() else T(str(s))
 
     def build(self, ci, state):
         """A registry of client ``ci``; with ``state`` given, a pristine one brought to that state."""
